@@ -262,6 +262,62 @@ def _relevant_kw(rng, kname, cur, settable):
     return rng.choice(settable)
 
 
+def gen_reconfig_for(rng, wg, model, path, kind, node, want_props, allow_parent=False):
+    """A reconfiguration op for one specific node, or None."""
+    if kind == "class":
+        if not allow_parent and descendants(model, node["id"]):
+            return None
+        kname = "Class"
+    else:
+        kname = node["k"]
+        if kname == "Nothing":
+            return None
+    props = _props_of(model, kind, node)
+    can_props = kname in ("Class", "Element")
+    if want_props:
+        if not can_props:
+            return None
+        sub = rng.random()
+        if props and sub < 0.3:
+            attr = rng.choice(list(props))
+            return {"op": "del_prop", "path": path, "attr": attr}
+        if props is not None and sub < 0.8:
+            if props and rng.random() < 0.5:
+                attr = rng.choice(list(props))  # replace
+            else:
+                attr = rng.choice(gen.PROP_NAMES)
+            pspec = {
+                "el": wg.element(2),
+                "required": rng.random() < 0.5,
+                "source": None,
+            }
+            return {"op": "set_prop", "path": path, "attr": attr, "prop": pspec}
+        if kname == "Element" and props is not None and rng.random() < 0.2:
+            return {"op": "replace_props", "path": path, "props": None}
+        new = wg.props(2, 0)
+        return {"op": "replace_props", "path": path, "props": new}
+    settable = SETTABLE.get(kname, ())
+    if not settable:
+        return None
+    if kind == "class":
+        cur = effective(model, node["id"])["kw"]
+    else:
+        cur = node.get("kw", {})
+    set_now = [k for k in cur if k in settable and k != "properties"]
+    if set_now and rng.random() < 0.45:
+        kw = rng.choice(set_now)
+        if rng.random() < 0.5 and not (kname == "Array" and kw == "items"):
+            return {"op": "set_kw", "path": path, "kw": kw, "val": {"unset": 1}}
+    else:
+        kw = _relevant_kw(rng, kname, cur, settable)
+    return {
+        "op": "set_kw",
+        "path": path,
+        "kw": kw,
+        "val": {"set": gen_kw_value(rng, wg, kw)},
+    }
+
+
 def gen_reconfig(rng, wg, model):
     """Pick a node and a reconfiguration that is legal on it."""
     nodes = spec_nodes(model)
@@ -269,68 +325,11 @@ def gen_reconfig(rng, wg, model):
     want_props = rng.random() < 0.45
     for attempt_no in (0, 1):
         for path, kind, node in nodes:
-            if kind == "class":
-                if descendants(model, node["id"]):
-                    continue
-                kname = "Class"
-            else:
-                kname = node["k"]
-                if kname == "Nothing":
-                    continue
-            props = _props_of(model, kind, node)
-            can_props = kname in ("Class", "Element")
-            if want_props and attempt_no == 0:
-                if not can_props:
-                    continue
-                sub = rng.random()
-                if props and sub < 0.3:
-                    attr = rng.choice(list(props))
-                    return {"op": "del_prop", "path": path, "attr": attr}
-                if props is not None and sub < 0.8:
-                    if props and rng.random() < 0.5:
-                        attr = rng.choice(list(props))  # replace
-                    else:
-                        attr = rng.choice(gen.PROP_NAMES)
-                    pspec = {
-                        "el": wg.element(2),
-                        "required": rng.random() < 0.5,
-                        "source": None,
-                    }
-                    return {
-                        "op": "set_prop",
-                        "path": path,
-                        "attr": attr,
-                        "prop": pspec,
-                    }
-                if kname == "Element" and props is not None and rng.random() < 0.2:
-                    return {"op": "replace_props", "path": path, "props": None}
-                new = wg.props(2, 0)
-                return {"op": "replace_props", "path": path, "props": new}
-            settable = SETTABLE.get(kname, ())
-            if not settable:
-                continue
-            if kind == "class":
-                cur = effective(model, node["id"])["kw"]
-            else:
-                cur = node.get("kw", {})
-            set_now = [k for k in cur if k in settable and k != "properties"]
-            if set_now and rng.random() < 0.45:
-                kw = rng.choice(set_now)
-                if rng.random() < 0.5 and not (kname == "Array" and kw == "items"):
-                    return {
-                        "op": "set_kw",
-                        "path": path,
-                        "kw": kw,
-                        "val": {"unset": 1},
-                    }
-            else:
-                kw = _relevant_kw(rng, kname, cur, settable)
-            return {
-                "op": "set_kw",
-                "path": path,
-                "kw": kw,
-                "val": {"set": gen_kw_value(rng, wg, kw)},
-            }
+            op = gen_reconfig_for(
+                rng, wg, model, path, kind, node, want_props and attempt_no == 0
+            )
+            if op is not None:
+                return op
     return None
 
 
